@@ -349,7 +349,7 @@ func c11Child(r *ev.Run, batch int) {
 					}
 					r.Distinct("t|" + c.Name + o.String() + a.String() + b.String())
 					do(init, ops, fmt.Sprintf("triple %s o=%s a=%s b=%s", c.Name, o, a, b))
-					if batch == 0 && r.NeedSample() && len(o.k) > 1 && len(a.k) > 0 && len(b.k) > 1 {
+					if r.NeedSample() && len(o.k) > 1 && len(a.k) > 0 && len(b.k) > 1 {
 						r.Sample(map[string]interface{}{"column": c.Desc(), "original": o.String(), "first_change": a.String(), "second_change": b.String()})
 					}
 				}
